@@ -65,21 +65,25 @@ def main():
     old = json.load(open(TABLE))
     diffs = []
 
-    def per_file(tab):
-        # code moved between functions of one file (a harmless refactoring) must not alarm:
-        # compare the number of sites of each kind per source file; only an INCREASE matters
-        # (a removed site cannot introduce a panic)
+    # Harmless rewrites must not alarm: `.unwrap()` <-> `.expect(..)` <-> indexing are one category
+    # ("this lookup must succeed"), code may move between functions and files.  So the comparison is on the
+    # number of sites per CATEGORY over all files, and only an INCREASE matters (a removed site cannot
+    # introduce a panic).
+    CAT = {"unwrap": "lookup", "expect": "lookup", "index": "lookup", "panic": "explicit", "unreachable": "explicit",
+           "sub_assign": "arith", "slice": "slice"}
+
+    def per_cat(tab):
         agg = {}
         for k, d in tab.items():
-            f = k.split("::")[0]
             for kind, n in d.items():
-                agg[(f, kind)] = agg.get((f, kind), 0) + n
+                agg[CAT[kind]] = agg.get(CAT[kind], 0) + n
         return agg
-    a, b = per_file(old), per_file(t)
-    for key in sorted(b):
-        if b[key] > a.get(key, 0):
-            funcs = [k for k in t if k.startswith(key[0] + "::") and t[k].get(key[1], 0) > old.get(k, {}).get(key[1], 0)]
-            diffs.append("%s: %d -> %d '%s' sites (functions: %s)" % (key[0], a.get(key, 0), b[key], key[1], ", ".join(funcs)))
+    a, b = per_cat(old), per_cat(t)
+    for cat in sorted(b):
+        if b[cat] > a.get(cat, 0):
+            kinds = [k for k, c in CAT.items() if c == cat]
+            funcs = [k for k in t if sum(t[k].get(x, 0) for x in kinds) > sum(old.get(k, {}).get(x, 0) for x in kinds)]
+            diffs.append("%d -> %d '%s' sites (functions with more than before: %s)" % (a.get(cat, 0), b[cat], cat, ", ".join(funcs)))
     print(json.dumps({"functions": len(t), "sites": sum(sum(v.values()) for v in t.values()), "differences": diffs}))
     return 1 if diffs else 0
 
